@@ -236,9 +236,12 @@ class ObjectNode:
 
     @cached_property
     def _ids(self) -> set[int]:
+        # Placeholder nodes (built by the inspector for the parents of a submodule) hold `None`:
+        # they must not make every member whose value is `None` look like one of its own ancestors.
+        own = set() if self.obj is None else {id(self.obj)}
         if self.parent is None:
-            return {id(self.obj)}
-        return {id(self.obj)} | self.parent._ids
+            return own
+        return own | self.parent._ids
 
     def _pick_member(self, name: str, member: Any) -> bool:
         return (
